@@ -475,6 +475,9 @@ def run(ck: Check, repo: Repo) -> None:
     from . import c06
     from ..fold import Folder
     c06.rule_language_and_case(ck, repo, Folder(repo), "R8")
+    # clause (a): what is ATTRIBUTED to a covered file - the precedence table of Project.reuse_info_of (shared with C04-R1)
+    from . import c04
+    c04.rule_table(ck, repo, "R9")
     ck.exhaustive = True
 
 
